@@ -8,7 +8,7 @@ nothing ever cleans it again.  Hence a violation of a rule *anywhere* in the exp
 namespace ExprModel
 
 /-- no error and no panic recorded -/
-def Good (st : CState) : Prop := st.err = none ∧ st.panic = none
+def CkGood (st : CState) : Prop := st.err = none ∧ st.panic = none
 
 theorem fail_colls (st : CState) (loc : Loc) (c : CheckErrClass) : (st.fail loc c).colls = st.colls := by
   unfold CState.fail; split <;> rfl
@@ -21,7 +21,7 @@ theorem fail_err_isSome (st : CState) (loc : Loc) (c : CheckErrClass) : (st.fail
   · rfl
   · rename_i h; simp [h]
 
-theorem fail_not_good (st : CState) (loc : Loc) (c : CheckErrClass) : ¬ Good (st.fail loc c) := by
+theorem fail_not_good (st : CState) (loc : Loc) (c : CheckErrClass) : ¬ CkGood (st.fail loc c) := by
   intro h
   have := fail_err_isSome st loc c
   rw [h.1] at this; cases this
@@ -29,21 +29,21 @@ theorem fail_not_good (st : CState) (loc : Loc) (c : CheckErrClass) : ¬ Good (s
 theorem setPanic_colls (st : CState) (m : String) : (st.setPanic m).colls = st.colls := by
   unfold CState.setPanic; split <;> rfl
 
-theorem setPanic_not_good (st : CState) (m : String) : ¬ Good (st.setPanic m) := by
+theorem setPanic_not_good (st : CState) (m : String) : ¬ CkGood (st.setPanic m) := by
   intro h
   unfold CState.setPanic at h
   split at h
   · cases h.2
   · rename_i hp; rw [h.2] at hp; cases hp
 
-theorem good_colls_update {st : CState} {cs : List OTy} : Good { st with colls := cs } ↔ Good st := Iff.rfl
+theorem good_colls_update {st : CState} {cs : List OTy} : CkGood { st with colls := cs } ↔ CkGood st := Iff.rfl
 
 theorem orFail_colls (r : Rule) (loc : Loc) (st : CState) : (orFail r loc st).2.colls = st.colls := by
   unfold orFail; split
   · rfl
   · exact fail_colls st loc _
 
-theorem orFail_bad (r : Rule) (loc : Loc) (st : CState) (h : ¬ Good st) : ¬ Good (orFail r loc st).2 := by
+theorem orFail_bad (r : Rule) (loc : Loc) (st : CState) (h : ¬ CkGood st) : ¬ CkGood (orFail r loc st).2 := by
   unfold orFail; split
   · exact h
   · exact fail_not_good st loc _
@@ -51,7 +51,7 @@ theorem orFail_bad (r : Rule) (loc : Loc) (st : CState) (h : ¬ Good st) : ¬ Go
 theorem orFail_good (r : Rule) (loc : Loc) (st : CState) :
     match Except.toOption' r with
     | some t => orFail r loc st = (t, st)
-    | none => ¬ Good (orFail r loc st).2 := by
+    | none => ¬ CkGood (orFail r loc st).2 := by
   cases r with
   | ok t => rfl
   | error c => exact fail_not_good st loc c
@@ -60,20 +60,20 @@ theorem orFail_good (r : Rule) (loc : Loc) (st : CState) :
 def VSpec (cfg : CheckCfg) (n : Node) : Prop :=
   ∀ st : CState,
     (visit cfg n st).2.2.colls = st.colls ∧
-    (¬ Good st → ¬ Good (visit cfg n st).2.2) ∧
-    (Good st →
+    (¬ CkGood st → ¬ CkGood (visit cfg n st).2.2) ∧
+    (CkGood st →
       match synth cfg st.colls n with
-      | some τ => (visit cfg n st).2.1 = τ ∧ Good (visit cfg n st).2.2
-      | none => ¬ Good (visit cfg n st).2.2)
+      | some τ => (visit cfg n st).2.1 = τ ∧ CkGood (visit cfg n st).2.2
+      | none => ¬ CkGood (visit cfg n st).2.2)
 
 /-- a rule applied at the end of a clause -/
 theorem finish (r : Rule) (loc : Loc) (st : CState) (mk : OTy → Node) :
     let p := orFail r loc st
     ((mk p.1, p.1, p.2) : Node × OTy × CState).2.2.colls = st.colls ∧
-    (¬ Good st → ¬ Good p.2) ∧
-    (Good st → match Except.toOption' r with
-      | some τ => p.1 = τ ∧ Good p.2
-      | none => ¬ Good p.2) := by
+    (¬ CkGood st → ¬ CkGood p.2) ∧
+    (CkGood st → match Except.toOption' r with
+      | some τ => p.1 = τ ∧ CkGood p.2
+      | none => ¬ CkGood p.2) := by
   refine ⟨orFail_colls r loc st, orFail_bad r loc st, ?_⟩
   intro hg
   have := orFail_good r loc st
@@ -141,11 +141,11 @@ theorem two_children (cfg : CheckCfg) (l r : Node) (ihl : VSpec cfg l) (ihr : VS
     let v1 := visit cfg l st
     let v2 := visit cfg r v1.2.2
     v2.2.2.colls = st.colls ∧
-    (¬ Good st → ¬ Good v2.2.2) ∧
-    (Good st →
+    (¬ CkGood st → ¬ CkGood v2.2.2) ∧
+    (CkGood st →
       match synth cfg st.colls l, synth cfg st.colls r with
-      | some lt, some rt => v1.2.1 = lt ∧ v2.2.1 = rt ∧ Good v2.2.2
-      | _, _ => ¬ Good v2.2.2) := by
+      | some lt, some rt => v1.2.1 = lt ∧ v2.2.1 = rt ∧ CkGood v2.2.2
+      | _, _ => ¬ CkGood v2.2.2) := by
   intro v1 v2
   obtain ⟨c1, b1, g1⟩ := ihl st
   obtain ⟨c2, b2, g2⟩ := ihr v1.2.2
@@ -438,10 +438,10 @@ theorem cond_case (cfg : CheckCfg) (m : Meta) (c a b : Node) (ihc : VSpec cfg c)
 def BSpec (cfg : CheckCfg) (b : Option Node) : Prop :=
   ∀ st : CState,
     (visitBound cfg b st).2.2.colls = st.colls ∧
-    (¬ Good st → ¬ Good (visitBound cfg b st).2.2) ∧
-    (Good st →
-      if synthBound cfg st.colls b then (visitBound cfg b st).2.1 = true ∧ Good (visitBound cfg b st).2.2
-      else ¬ Good (visitBound cfg b st).2.2)
+    (¬ CkGood st → ¬ CkGood (visitBound cfg b st).2.2) ∧
+    (CkGood st →
+      if synthBound cfg st.colls b then (visitBound cfg b st).2.1 = true ∧ CkGood (visitBound cfg b st).2.2
+      else ¬ CkGood (visitBound cfg b st).2.2)
 
 theorem bound_none (cfg : CheckCfg) : BSpec cfg none := by
   intro st
@@ -487,8 +487,8 @@ theorem bound_some (cfg : CheckCfg) (n : Node) (ih : VSpec cfg n) : BSpec cfg (s
 def LSpec (cfg : CheckCfg) (ns : List Node) : Prop :=
   ∀ st : CState,
     (visitList cfg ns st).2.colls = st.colls ∧
-    (¬ Good st → ¬ Good (visitList cfg ns st).2) ∧
-    (Good st → if synthList cfg st.colls ns then Good (visitList cfg ns st).2 else ¬ Good (visitList cfg ns st).2)
+    (¬ CkGood st → ¬ CkGood (visitList cfg ns st).2) ∧
+    (CkGood st → if synthList cfg st.colls ns then CkGood (visitList cfg ns st).2 else ¬ CkGood (visitList cfg ns st).2)
 
 theorem list_nil (cfg : CheckCfg) : LSpec cfg [] := by
   intro st
@@ -666,12 +666,12 @@ theorem slice_case (cfg : CheckCfg) (m : Meta) (x : Node) (f t : Option Node) (i
 def ASpec (cfg : CheckCfg) (ins : List Ty) (variadic : Bool) (numIn offset : Nat) (args : List Node) : Prop :=
   ∀ (i : Nat) (st : CState),
     (checkArgs cfg ins variadic numIn offset i args st).2.2.colls = st.colls ∧
-    (¬ Good st → ¬ Good (checkArgs cfg ins variadic numIn offset i args st).2.2) ∧
-    (Good st →
+    (¬ CkGood st → ¬ CkGood (checkArgs cfg ins variadic numIn offset i args st).2.2) ∧
+    (CkGood st →
       if synthArgs cfg st.colls ins variadic numIn offset i args then
         (checkArgs cfg ins variadic numIn offset i args st).2.1 = true ∧
-        Good (checkArgs cfg ins variadic numIn offset i args st).2.2
-      else ¬ Good (checkArgs cfg ins variadic numIn offset i args st).2.2)
+        CkGood (checkArgs cfg ins variadic numIn offset i args st).2.2
+      else ¬ CkGood (checkArgs cfg ins variadic numIn offset i args st).2.2)
 
 theorem args_nil (cfg : CheckCfg) (ins : List Ty) (variadic : Bool) (numIn offset : Nat) :
     ASpec cfg ins variadic numIn offset [] := by
@@ -868,8 +868,8 @@ theorem builtin_case (cfg : CheckCfg) (m : Meta) (name : String) (args : List No
   have unknown : ∀ (as : List Node) (cl : CheckErrClass),
       ((setKd (Node.builtin m name as) ifaceTy, ifaceTy, st.fail m.loc cl) :
         Node × OTy × CState).2.2.colls = st.colls ∧
-      (¬ Good st → ¬ Good (st.fail m.loc cl)) ∧
-      (Good st → ¬ Good (st.fail m.loc cl)) :=
+      (¬ CkGood st → ¬ CkGood (st.fail m.loc cl)) ∧
+      (CkGood st → ¬ CkGood (st.fail m.loc cl)) :=
     fun _ _ => ⟨fail_colls st _ _, fun _ => fail_not_good st _ _, fun _ => fail_not_good st _ _⟩
   match args, ih with
   | [], _ =>
